@@ -200,12 +200,12 @@ fn tuple_of(d: &Value) -> Option<[i64; 4]> {
 }
 
 /// C16: relation between the stage snapshots of one solve call and the returned JSON.
-pub fn check_stages(fl: &Flat, snaps: &[Value], output: &Value, fs: &mut Vec<Finding>) -> (bool, usize) {
+pub fn check_stages(fl: &Flat, snaps: &[Value], output: &Value, fs: &mut Vec<Finding>) -> (bool, usize, bool) {
     let get = |label: &str| snaps.iter().find(|s| s["label"] == label).map(|s| &s["digest"]);
     let ls_steps = snaps.iter().filter(|s| s["label"] == "ls_step").count();
     let (Some(start), Some(ls), Some(topt), Some(fin)) = (get("start"), get("after_ls"), get("after_transition_opt"), get("final")) else {
         fs.push(Finding { prop: "C16", msg: format!("stage snapshots incomplete: have {:?}", snaps.iter().map(|s| s["label"].as_str().unwrap_or("")).collect::<Vec<_>>()) });
-        return (false, ls_steps);
+        return (false, ls_steps, false);
     };
     let acts_and_start = |d: &Value| -> Vec<(String, Vec<String>)> {
         let mut v: Vec<(String, Vec<String>)> = d["vehicles"]
@@ -248,6 +248,7 @@ pub fn check_stages(fl: &Flat, snaps: &[Value], output: &Value, fs: &mut Vec<Fin
     let opt_cycles = norm(&topt["cycles"]);
     let fin_cycles = norm(&fin["cycles"]);
     let differs_from_ls = norm(&ls["cycles"]) != opt_cycles;
+    let multi_cycle_type = norm(&ls["cycles"]).iter().any(|per_type| per_type.len() >= 2);
     if fin_cycles != opt_cycles {
         fs.push(Finding { prop: "C16", msg: format!("rotation cycles of the returned schedule {:?} are not the transition optimiser's cycles {:?} (local-search result had {:?})", fin_cycles, opt_cycles, norm(&ls["cycles"])) });
     }
@@ -364,7 +365,7 @@ pub fn check_stages(fl: &Flat, snaps: &[Value], output: &Value, fs: &mut Vec<Fin
             }
         }
     }
-    (differs_from_ls, ls_steps)
+    (differs_from_ls, ls_steps, multi_cycle_type)
 }
 
 impl Engine for PipelineEngine {
@@ -454,7 +455,10 @@ impl Engine for PipelineEngine {
             match r {
                 ChildResult::Answer { output, snapshots } => {
                     let (mut fs, facts, _parsed) = ojson::validate(&fl, &output);
-                    let (opt_changed, ls_steps) = check_stages(&fl, &snapshots, &output, &mut fs);
+                    let (opt_changed, ls_steps, multi_cycle) = check_stages(&fl, &snapshots, &output, &mut fs);
+                    if multi_cycle {
+                        classes.push("type_with>=2_cycles_after_search".into());
+                    }
                     for f in fs.iter_mut() {
                         f.msg = format!("[{}] {}", profile, f.msg);
                     }
